@@ -104,6 +104,58 @@ def builder_case(d, start, pop, part, all_nan_leaf=None, nan_file=False):
         verify(b, stored)
 
 
+def mixed_precision_case(d, part):
+    """A pyramid whose leaves were written from a float64 and from float32 inputs (the first tile the cascade
+    reads is a float64 one, so that every child fits the working buffer): the float32 leaves hold the minima,
+    and every tile's range must still be the range of all leaf data beneath it."""
+    from toasty.builder import Builder
+    from toasty.image import Image
+    from toasty.pyramid import PyramidIO, Pos
+
+    cfg = {"mixed_precision": True, "start": 2}
+    part.case(nontrivial=True)
+
+    def bad(clause, detail):
+        part.violation("%s/fits-mixed-precision" % clause, "%r: %s" % (cfg, detail), cfg)
+
+    root = os.path.join(d, "mx")
+    shutil.rmtree(root, ignore_errors=True)
+    pio = PyramidIO(root, default_format="fits")
+    leaves = {}
+    for tid in range(16):
+        x, y = tid % 4, tid // 4
+        wide = (x % 2 == 0 and y % 2 == 0)  # the top-left child of every level-1 tile: read first
+        a = np.linspace(10.0 + tid, 20.0 + tid, 65536).reshape(256, 256)
+        if not wide:
+            a = a - 500.0 - 3.0 * tid  # the float32 leaves carry the minima
+        a[5 + tid, 7:90] = np.nan
+        leaves[(2, x, y)] = a.astype("f8" if wide else "f4")
+    try:
+        with quiet():
+            for pos, a in leaves.items():
+                pio.write_image(Pos(*pos), Image.from_array(a[::-1].copy()))
+            b = Builder(pio)
+            b.imgset.tile_levels = 2
+            b.cascade(parallel=1)
+            b.write_index_rel_wtml()
+    except Exception as e:
+        bad("raises:%s" % type(e).__name__, repr(e))
+        return
+    tree = c02.read_tree(root, "fits")
+    for pos, (arr, hdr) in sorted(tree.items()):
+        vals = [a[np.isfinite(a)] for p, a in leaves.items() if (p[1] >> (2 - pos[0]), p[2] >> (2 - pos[0])) == (pos[1], pos[2])]
+        lo, hi = min(float(v.min()) for v in vals), max(float(v.max()) for v in vals)
+        if not hdr or "DATAMIN" not in hdr or "DATAMAX" not in hdr:
+            bad("range/header-missing", "tile %r has no DATAMIN/DATAMAX" % (pos,))
+            return
+        if not (np.isclose(hdr["DATAMIN"], lo, rtol=2e-7) and np.isclose(hdr["DATAMAX"], hi, rtol=2e-7)):
+            bad("range/differs-from-leaf-range/%s" % ("leaf" if pos[0] == 2 else ("root" if pos[0] == 0 else "inner")), "tile %r records %r/%r, the leaves beneath it span %r/%r" % (pos, hdr["DATAMIN"], hdr["DATAMAX"], lo, hi))
+            return
+    allv = np.concatenate([a[np.isfinite(a)] for a in leaves.values()])
+    if not (np.isclose(b.imgset.data_min, allv.min(), rtol=2e-7) and np.isclose(b.imgset.data_max, allv.max(), rtol=2e-7)):
+        bad("range/imageset", "Builder.imgset data_min/max = %r/%r, leaves span %r/%r" % (b.imgset.data_min, b.imgset.data_max, float(allv.min()), float(allv.max())))
+
+
 def updated_leaves_case(d, part, parallel_cascade=1):
     """Leaves written through update_image in two passes (as multi-TAN tiling and non-clobbering
     TOAST sampling do), the second pass widening the data range; then cascade."""
@@ -220,6 +272,7 @@ def _builder_job(job):
         updated_leaves_case(d, part)
         if job and job[0][0] == 1 and len(job[0][1]) == 1:
             toast_fits_case(d, part)
+            mixed_precision_case(d, part)
         part.sample({"builder_cascade": True, "start": job[0][0], "population": list(job[0][1]), "all_nan_leaf": job[0][2]})
     return part
 
@@ -232,7 +285,7 @@ def _job(j):
 
 def run(tier, seed):
     rep = Report(PROP, tier, seed, "model_checking")
-    kinds = ["fits-F32", "fits-F32z", "fits-F32n", "fits-F32c"] + (["fits-F64"] if tier == "thorough" else [])
+    kinds = ["fits-F32", "fits-F32z", "fits-F32n", "fits-F32c", "fits-F32s"] + (["fits-F64"] if tier == "thorough" else [])
     rep.rule = (
         "every sparse FITS leaf population of the C02 family (depth 1: all 16 subsets; depth 2: %d populations%s), serial cascade: DATAMIN/DATAMAX of "
         "every tile vs the finite leaf range beneath it, ImageSet and WTML range vs the root; parallel cascade under the virtual scheduler, all "
@@ -265,6 +318,13 @@ def replay(payload):
         part = Part()
         with scratch("c14r") as d:
             toast_fits_case(d, part)
+        for sig, (detail, _) in part.violations.items():
+            print("REPLAY-FAIL", sig, detail[:400])
+        return 1 if part.violations else 0
+    if r.get("mixed_precision"):
+        part = Part()
+        with scratch("c14r") as d:
+            mixed_precision_case(d, part)
         for sig, (detail, _) in part.violations.items():
             print("REPLAY-FAIL", sig, detail[:400])
         return 1 if part.violations else 0
